@@ -53,7 +53,7 @@ package main
 //@   requires f != nil && astOK(f)
 //@   requires wfProgs(r.patches)
 //@   requires forall i int {r.errors[i]} :: 0 <= i && i < len(r.errors) ==> r.errors[i] != nil
-//@   assigns r.errors, elems(r.errors), group(ast), matchCount, replFail, sitesReplaced
+//@   assigns r.errors, elems(r.errors), group(ast), matchCount, replFail, sitesReplaced, restructured
 //@   ensures [C16] recorded-errors-are-errors: forall i int {r.errors[i]} :: 0 <= i && i < len(r.errors) ==> r.errors[i] != nil
 //@   ensures [C06,C08,C09] matched-has-file: matched ==> fout != nil
 //@   ensures [C06] matched-only-after-match: matched ==> matchCount > old(matchCount)
